@@ -190,6 +190,12 @@ static void genCase(uint64_t idx, vh::Rng& g, Alpha& al, RTA& a, RTA& b, std::st
 	}
 	else if (g.below(100) < static_cast<uint64_t>(R->param("corpus_percent", 6)) && genCorpusPair(g, al, a, b, kind)) { }
 	else gen::genPair(g, S, Rn, al, a, b, kind, true);
+	if (!R->inputFile.empty())
+	{	// --input FILE: replace the generated pair (shrinker)
+		Alpha ial; std::vector<RTA> auts; int k = parseCaseText(slurpFile(R->inputFile), ial, auts);
+		if (k < 2) { fprintf(stderr, "cannot parse --input file (two automata needed)\n"); exit(2); }
+		al = ial; a = auts[0]; b = auts[1]; kind = "input-file";
+	}
 }
 
 static void account(const Alpha& al, const RTA& a, const RTA& b, const std::string& kind, int ref)
